@@ -306,6 +306,7 @@ CommentItemsFew(z) == { LineCommentItem(<<35>>, <<32, 97>>, TRUE), LineCommentIt
                         LineCommentItem(<<47, 47>>, <<97>>, FALSE), BlockCommentItem(<<>>),
                         BlockCommentItem(<<32, 10, 42>>) }
 
+TbHeadsFew == { <<10>>, <<45, 10>>, <<32, 13, 10>>, <<97, 10>> }     \* quick tier
 NParts == 10
 Part(p) == CASE p = 1 -> IdentItems(0) [] p = 2 -> NumItemsAll(0) [] p = 3 -> OpItemsAll(0)
              [] p = 4 -> PunctItems(0) [] p = 5 -> QuotedItems(0) \cup QuotedItems(1)
@@ -316,8 +317,9 @@ Medium(z) == IdentItems(0) \cup NumItemsFew(0) \cup OpItemsFew(0) \cup PunctItem
              \cup QuotedItemsFew(1) \cup {VerbItem(34, <<97, 34>>), VerbItem(39, <<>>)}
              \cup TbItemsFew(0) \cup CommentItemsFew(0)
              \cup {WsItem(<<32>>), WsItem(<<10>>), WsItem(<<13, 10, 9>>)}
-Seps(z) == {WsItem(<<32>>), WsItem(<<10>>), BlockCommentItem(<<>>), LineCommentItem(<<47, 47>>, <<120>>, TRUE),
-            LineCommentItem(<<35>>, <<>>, TRUE)}
+Seps(z) == IF MaxLen = 0 THEN {WsItem(<<32>>)}       \* quick
+           ELSE {WsItem(<<32>>), WsItem(<<10>>), BlockCommentItem(<<>>), LineCommentItem(<<47, 47>>, <<120>>, TRUE),
+                 LineCommentItem(<<35>>, <<>>, TRUE)}
 Small(z) == {IdentItem(<<97>>), IdentItem(<<105, 102>>), IdentItem(<<101>>),
              NumItem(NumD(<< <<49>> >>, <<>>, NoExp)), NumItem(NumD(<< <<48>> >>, << <<53>> >>, NoExp)),
              OpItem(<<43>>), OpItem(<<45>>), OpItem(<<124>>), OpItem(<<47>>), OpItem(<<58, 58>>), OpItem(<<42>>),
@@ -372,7 +374,8 @@ Init ==
     [] Mode = "items2" -> \E x \in Medium(0) : its = <<x>> /\ b = <<>> /\ ph = "seed"
     [] Mode = "items3" -> \E x \in Small(0) : its = <<x>> /\ b = <<>> /\ ph = "seed"
     [] Mode = "frag"   -> \E f \in FragsQ \cup {<<>>} : its = <<>> /\ b = f /\ ph = "seed"
-    [] Mode = "tbfrag" -> \E h \in TbHeads, f \in TbLines : its = <<>> /\ b = h \o f /\ ph = "seed"
+    [] Mode = "tbfrag" -> \E h \in (IF First = {} THEN TbHeads ELSE TbHeadsFew), f \in TbLines :
+                              its = <<>> /\ b = h \o f /\ ph = "seed"
     [] Mode = "utf8"   -> \E c \in 1..NContainers, p \in Pats : its = <<c>> /\ b = p /\ ph = "seed"
     [] Mode = "scalar" -> \E j \in 0..63 : its = <<j>> /\ b = <<>> /\ ph = "seed"
 
@@ -417,10 +420,11 @@ Utf8Body == LET c == its[1] n == its[2]
             IN  SubSeq(b, off + 1, off + n)
 
 Laws == ph = "case" =>
-  CASE Mode \in ItemModes -> LawSeq(its) /\ LawBytes(b)
-    [] Mode = "utf8"   -> Utf8Law(its[1], Utf8Body) /\ LawLossy(Utf8Body) /\ LawBytes(b)
-    [] Mode = "scalar" -> LawScalar(its[1]) /\ Lex(b).st = "ok" /\ Lex(b).toks[1].val = <<its[1]>>
-    [] OTHER -> LawBytes(b)
+  LET r == Lex(b) IN
+  CASE Mode \in ItemModes -> LawSeqR(its, r) /\ LawBytesR(b, r)
+    [] Mode = "utf8"   -> Utf8Law(its[1], Utf8Body) /\ LawLossy(Utf8Body) /\ LawBytesR(b, r)
+    [] Mode = "scalar" -> LawScalar(its[1]) /\ r.st = "ok" /\ r.toks[1].val = <<its[1]>>
+    [] OTHER -> LawBytesR(b, r)
 
 CT(t) == <<t.kind, t.s, t.e, t.val, t.exp>>
 Emit == (Mode # "scalar" /\ ph = "case") =>
